@@ -40,6 +40,8 @@ struct SDecl {
     nops: usize,
     /// stateless kinds: output depends on the current input only
     stateless: bool,
+    /// `RuntimeSource::EventType/Stream` name (what a later sequence step naming this stream resolves to)
+    rsrc: Option<String>,
 }
 
 #[derive(Clone, Debug)]
@@ -88,7 +90,15 @@ fn gen_body(rng: &mut Rng, name: &str, src: &[String], kind_hint: Option<&str>, 
     };
     let s0 = pick(rng);
     let mut d = SDecl { name: name.to_string(), body: String::new(), subs: vec![s0.clone()], prim: vec![s0.clone()],
-        join: false, proc_: false, kind: kind.clone(), nops: 0, stateless: false };
+        join: false, proc_: false, kind: kind.clone(), nops: 0, stateless: false, rsrc: Some(s0.clone()) };
+    // `resolve_event_type` of `compile_ops_with_sequences`: a sequence step that names an already
+    // registered stream is subscribed under that stream's own source (one level)
+    let resolve = |n: &String| -> String {
+        match decl_before.iter().rev().find(|p| &p.name == n) {
+            Some(p) => p.rsrc.clone().unwrap_or_else(|| n.clone()),
+            None => n.clone(),
+        }
+    };
     let c = thr(rng);
     match kind.as_str() {
         "filter" => { d.body = format!("{s0}\n    .where(x > {c})"); d.nops = 1; d.stateless = true; }
@@ -107,13 +117,13 @@ fn gen_body(rng: &mut Rng, name: &str, src: &[String], kind_hint: Option<&str>, 
             d.body = format!("{s0} as a\n    -> {s1}{cond} as b");
             d.nops = 1;
             if kind == "seq" { d.body.push_str("\n    .emit(k: a.k, x: b.x)"); d.nops = 2; }
-            d.subs = vec![s0.clone(), s1];
+            d.subs = vec![s0.clone(), resolve(&s0), resolve(&s1)];
         }
         "seq3" => {
             let s1 = pick(rng); let s2 = pick(rng);
             d.body = format!("{s0} as a\n    -> {s1} as b\n    -> {s2} where x > {c} as c\n    .emit(k: a.k, x: c.x)");
             d.nops = 2;
-            d.subs = vec![s0.clone(), s1, s2];
+            d.subs = vec![s0.clone(), resolve(&s0), resolve(&s1), resolve(&s2)];
         }
         "join" => {
             let mut s1 = pick(rng);
@@ -134,6 +144,7 @@ fn gen_body(rng: &mut Rng, name: &str, src: &[String], kind_hint: Option<&str>, 
                 };
                 d.subs = vec![under(&s0), under(&s1)];
                 d.prim = vec![];
+                d.rsrc = None;
             }
         }
         "merge" => {
@@ -143,6 +154,7 @@ fn gen_body(rng: &mut Rng, name: &str, src: &[String], kind_hint: Option<&str>, 
             d.subs = vec![s0.clone(), s1.clone()];
             d.prim = vec![s0.clone(), s1];
             d.stateless = true;
+            d.rsrc = None;
         }
         "proc" => { d.body = format!("{s0}\n    .process(two())"); d.nops = 1; d.proc_ = true; d.stateless = true; }
         "proc1" => { d.body = format!("{s0}\n    .where(x > {c})\n    .process(one())"); d.nops = 2; d.proc_ = true; d.stateless = true; }
